@@ -308,6 +308,10 @@ func (its *PushPullHandler) processSubscribeOrCreate(code pushPullCase) errors.O
 			return its.createDatatype()
 		case caseAllMatchedNotSubscribed:
 			return its.subscribeDatatype()
+		case caseAllMatchedSubscribed:
+			if its.isRepeatedSubscription() {
+				return its.subscribeDatatype()
+			}
 		}
 	} else if its.gotOption.HasSubscribeBit() {
 		switch code {
@@ -316,6 +320,9 @@ func (its *PushPullHandler) processSubscribeOrCreate(code pushPullCase) errors.O
 		case caseUsedDUID:
 		case caseMatchKeyNotType:
 		case caseAllMatchedSubscribed:
+			if its.isRepeatedSubscription() {
+				return its.subscribeDatatype()
+			}
 		case caseAllMatchedNotSubscribed:
 			return its.subscribeDatatype()
 		case caseAllMatchedNotVisible:
@@ -334,6 +341,13 @@ func (its *PushPullHandler) processSubscribeOrCreate(code pushPullCase) errors.O
 		}
 	}
 	return its.initClientInfoWithDatatypeDoc()
+}
+
+// isRepeatedSubscription tells that a subscribe request comes from a client that is already subscribed
+// but still uses its own provisional datatype id: its first request was processed and the response
+// was lost, or the request was delivered twice. It is answered like the first one.
+func (its *PushPullHandler) isRepeatedSubscription() bool {
+	return its.datatypeDoc != nil && its.DUID != its.datatypeDoc.DUID
 }
 
 func (its *PushPullHandler) subscribeDatatype() errors.OrdaError {
